@@ -1,4 +1,5 @@
 import FinProtoc.Proofs.DecSound
+import FinProtoc.Proofs.ConfInv
 import FinProtoc.Props.C02
 /-!
 # C07 — successful compilation yields complete, well-formed target code
@@ -38,65 +39,49 @@ theorem plainOkD_noskip {S : Schema} {P : Prog} {all : List Field} {i : Nat} {f 
   cases st <;> first | rfl | (exfalso; unfold plainOkD at h; split at h <;> first | (simp at h; done) | (cases hk : f.kind <;> simp [hk] at h))
 
 theorem confFieldsE_complete {S : Schema} {all : List Field} :
-    ∀ (n : Nat) (fs : List Field), fs.length ≤ n → ∀ (i : Nat) (steps : List EStep), confFieldsE S all i fs steps = true →
+    ∀ (fs : List Field) (pend : Option Pending) (i : Nat) (steps : List EStep), confFieldsE S all pend i fs steps = true →
       fs.length ≤ steps.length ∧ ∀ s ∈ steps, EStep.isSkip s = false := by
-  intro n
-  induction n with
-  | zero =>
-    intro fs hl i steps h
-    have : fs = [] := by cases fs <;> simp at hl ⊢
-    subst this
-    cases steps <;> simp [confFieldsE] at h
-    exact ⟨by simp, by simp⟩
-  | succ n ih =>
-    intro fs hl i steps h
-    cases fs with
-    | nil =>
+  intro fs
+  induction fs with
+  | nil =>
+    intro pend i steps h
+    cases pend with
+    | some p => simp [confFieldsE] at h
+    | none =>
       cases steps <;> simp [confFieldsE] at h
       exact ⟨by simp, by simp⟩
-    | cons f fs =>
-      by_cases hlen : (∃ t target, f.kind = .lengthOf t target) ∧ f.rep = false
-      · obtain ⟨⟨t, target, hk⟩, hrep⟩ := hlen
-        unfold confFieldsE at h
-        simp only [hk, hrep] at h
-        cases fs with
-        | nil => simp at h
-        | cons f2 fs' =>
-          rcases steps with _ | ⟨s1, _ | ⟨s2, _ | ⟨s3, _ | ⟨s4, _ | ⟨s5, rest⟩⟩⟩⟩⟩ <;> try (simp at h; done)
-          cases s1 <;> try (simp at h; done)
-          cases s2 <;> try (simp at h; done)
-          cases s4 <;> try (simp at h; done)
-          cases s5 <;> try (simp at h; done)
-          simp only [Bool.and_eq_true, and_assoc] at h
-          obtain ⟨_, _, _, _, _, _, _, _, _, _, _, _, _, _, _, hp2, hrest⟩ := h
-          obtain ⟨hl', hs'⟩ := ih fs' (by simp at hl; omega) (i + 2) rest hrest
-          refine ⟨by simp; omega, ?_⟩
-          intro s hs
-          simp only [List.mem_cons] at hs
-          rcases hs with rfl | rfl | rfl | rfl | rfl | hs
-          · rfl
-          · rfl
-          · exact plainOkE_noskip hp2
-          · rfl
-          · rfl
-          · exact hs' s hs
-      · have hplain : ∃ st rest, steps = st :: rest ∧ plainOkE S i f st = true ∧ confFieldsE S all (i + 1) fs rest = true := by
-          unfold confFieldsE at h
-          cases hk : f.kind <;> cases hr : f.rep <;> simp only [hk, hr] at h <;>
-            first
-            | (exfalso; exact hlen ⟨⟨_, _, hk⟩, hr⟩)
-            | (cases steps with
-               | nil => simp at h
-               | cons st rest =>
-                 simp only [Bool.and_eq_true] at h
-                 exact ⟨st, rest, rfl, h.1, h.2⟩)
-        obtain ⟨st, rest, rfl, hp, hrest⟩ := hplain
-        obtain ⟨hl', hs'⟩ := ih fs (by simp at hl; omega) (i + 1) rest hrest
-        refine ⟨by simp; omega, ?_⟩
-        intro s hs
-        rcases List.mem_cons.mp hs with rfl | hs
-        · exact plainOkE_noskip hp
-        · exact hs' s hs
+  | cons f fs ih =>
+    intro pend i steps h
+    cases hrole : roleOf pend f with
+    | len t target =>
+      obtain ⟨le1, pv, rest, rfl, _, hrest⟩ := confFieldsE_len hrole h
+      obtain ⟨hl', hs'⟩ := ih _ (i + 1) rest hrest
+      refine ⟨by simp; omega, ?_⟩
+      intro s hs
+      rcases List.mem_cons.mp hs with rfl | hs
+      · rfl
+      · exact hs' s hs
+    | target p =>
+      obtain ⟨sv, st2, ev, le2, slice, rest, rfl, _, _, _, _, _, _, _, _, hp2, hrest⟩ := confFieldsE_target hrole h
+      obtain ⟨hl', hs'⟩ := ih _ (i + 1) rest hrest
+      refine ⟨by simp; omega, ?_⟩
+      intro s hs
+      simp only [List.mem_cons] at hs
+      rcases hs with rfl | rfl | rfl | rfl | hs
+      · rfl
+      · exact plainOkE_noskip hp2
+      · rfl
+      · rfl
+      · exact hs' s hs
+    | plain =>
+      obtain ⟨st, rest, rfl, hp, hrest⟩ := confFieldsE_plain hrole h
+      obtain ⟨hl', hs'⟩ := ih _ (i + 1) rest hrest
+      refine ⟨by simp; omega, ?_⟩
+      intro s hs
+      rcases List.mem_cons.mp hs with rfl | hs
+      · exact plainOkE_noskip hp
+      · exact hs' s hs
+    | bad => exact (confFieldsE_bad hrole h).elim
 
 theorem confFieldsD_complete {S : Schema} {P : Prog} {all : List Field} :
     ∀ (fs : List Field) (i : Nat) (steps : List DStep), confFieldsD S P all i fs steps = true →
@@ -127,7 +112,7 @@ theorem complete_of_conf (S : Schema) (P : Prog) (he : confEnc S P = true) (hd :
   | none => simp [hst] at hpe
   | some st =>
     simp only [hst, Bool.and_eq_true, decide_eq_true_eq] at hpe hpd
-    obtain ⟨hle, hse⟩ := confFieldsE_complete p.fields.length p.fields (Nat.le_refl _) 0 st.enc hpe.2
+    obtain ⟨hle, hse⟩ := confFieldsE_complete p.fields none 0 st.enc hpe.2
     obtain ⟨hld, hsd⟩ := confFieldsD_complete p.fields 0 st.dec hpd.2
     exact ⟨st, rfl, hpe.1, hle, hld, hse, hsd⟩
 
